@@ -165,6 +165,9 @@ func (r *FnRun) execInstr(st *State, ins ssa.Instruction, in map[*ssa.BasicBlock
 		case ArrV:
 			r.boundsCheck(st, idx, tb.BVI(64, a.N), x.Pos(), describeInstr(x))
 			r.vals[x] = Scalar{tb.Select(a.Arr, idx)}
+		case SliceV:
+			r.boundsCheck(st, idx, a.Len, x.Pos(), describeInstr(x))
+			r.vals[x] = Scalar{r.byteAt(st, a, idx)}
 		default:
 			r.unsupported("Index on %T", a)
 		}
